@@ -30,7 +30,9 @@ typedef struct
     uint8_t *map;          /* mmap'ed region (guard + storage + guard) */
     size_t maplen;
     uint8_t *store;        /* lowest address of the storage */
-    long size;             /* bytes of storage: |stride| * height */
+    long size;             /* bytes of storage: |stride| * (height - 1) + bytes of one row rounded up to a word */
+    long astride, rb;      /* |stride| and the row bytes (rounded up to 32-bit words) */
+    int rows;
     int id;
     /* accessed intervals (accessor mode) */
     int niv;
@@ -54,7 +56,9 @@ record (const void *p, int size)
 	{
 	    long lo = a - v->store, hi = lo + size;
 	    for (j = 0; j < v->niv; j++)
-		if (lo <= v->iv[j][1] && hi >= v->iv[j][0])
+		if (lo <= v->iv[j][1] && hi >= v->iv[j][0] &&
+		    (v->astride == v->rb || v->astride == 0 ||
+		     (lo >= 0 && v->iv[j][0] >= 0 && lo / v->astride == v->iv[j][0] / v->astride)))
 		{
 		    if (lo < v->iv[j][0]) v->iv[j][0] = lo;
 		    if (hi > v->iv[j][1]) v->iv[j][1] = hi;
@@ -66,9 +70,13 @@ record (const void *p, int size)
 	    }
 	    else
 	    {
-		/* table full: widen the first interval to the hull (still inside the storage iff every access is) */
-		if (lo < v->iv[0][0]) v->iv[0][0] = lo;
-		if (hi > v->iv[0][1]) v->iv[0][1] = hi;
+		/* table full: further accesses are checked against the outer bounds only (widening an interval
+		 * could bridge row padding that was never accessed) */
+		if (lo < 0 || hi > v->size)
+		{
+		    v->iv[0][0] = lo < v->iv[0][0] ? lo : v->iv[0][0];
+		    v->iv[0][1] = hi > v->iv[0][1] ? hi : v->iv[0][1];
+		}
 	    }
 	    return;
 	}
@@ -153,12 +161,16 @@ make_image (int slot, pixman_format_code_t fmt, int w, int h, int neg, int mode,
 {
     vimg_t *v = &imgs[slot];
     int bpp = PIXMAN_FORMAT_BPP (fmt);
-    long stride = (((long)w * bpp + 31) / 32 + (force_min_stride ? 0 : (long)vrng_below (rng, 2))) * 4;
-    long size = stride * h;
+    long rb = (((long)w * bpp + 31) / 32) * 4;
+    long stride = rb + (force_min_stride ? 0 : (long)vrng_below (rng, 3)) * 4;
+    /* the caller owns the pixels of each row (rounded up to whole 32-bit words), not the padding between rows
+     * nor after the last row: an image may be a window onto a larger surface */
+    long size = h > 0 ? stride * (h - 1) + rb : 0;
     uint32_t *bits;
     if (size == 0) size = 4;
     make_storage (v, size, mode != 2, rng);
     v->id = slot;
+    v->astride = stride; v->rb = rb; v->rows = h;
     bits = (uint32_t *)v->store;
     if (neg && h > 0)
     {
@@ -187,7 +199,8 @@ log_images (void)
     for (i = 0; i < nimgs; i++)
     {
 	vimg_t *v = &imgs[i];
-	fprintf (vt_out, "%s{\"id\":%d,\"size\":%ld,\"overflow\":%s,\"iv\":[", i ? "," : "", v->id, v->size, v->overflow ? "true" : "false");
+	fprintf (vt_out, "%s{\"id\":%d,\"size\":%ld,\"stride\":%ld,\"rb\":%ld,\"rows\":%d,\"iv\":[", i ? "," : "", v->id, v->size,
+		 v->astride, v->rb, v->rows);
 	for (j = 0; j < v->niv; j++)
 	    fprintf (vt_out, "%s[%ld,%ld]", j ? "," : "", v->iv[j][0], v->iv[j][1]);
 	fputs ("]}", vt_out);
